@@ -4,7 +4,7 @@
    blocks, lexCode with its literal lexers, the shebang line), modelled with
    checked indexing.  Only statements, `exact`, Print Assumptions. *)
 From Verif Require Import Bytes Facts_lexer Facts_unicode LexBase LexCodeM LexerM LexTables
-  LexBase_proofs LexTile_proofs LexCode_proofs Lexer_proofs LexTop_proofs.
+  LexBase_proofs LexTile_proofs LexCode_proofs Lexer_proofs LexTop_proofs LexProg_proofs.
 Open Scope N_scope.
 
 (* Full statement.  Building a template is the lexer followed by the parser,
@@ -65,8 +65,54 @@ Theorem C04_lexcode_measure_partial :
                    | Stop s' => extB src (c_l s) (c_l s') /\ (c_ret s' = true -> c_ret s = true \/ closing endt (c_l s'))
                    end)
          (extB src (c_l s)).
-Proof. exact code_body_safe. Qed.
+Proof. exact code_body_safeB. Qed.
 Print Assumptions C04_lexcode_measure_partial.
+
+(* ---- programs: scanProgram runs scan with templateSyntax = false, that is
+   lexCode(tokenEOF) on the whole source (keywords of the program syntax, no
+   raw marker bookkeeping, no shebang line), then sends the EOF token ---- *)
+Definition program_no_fault_statement : Prop :=
+  forall (U : unitab) (src : bytes), scan_program U src <> Crashed.
+Definition program_terminates_statement : Prop :=
+  forall (U : unitab) (src : bytes), scan_program U src <> OutOfFuel.
+Definition program_token_range_statement : Prop :=
+  forall (U : unitab) (src : bytes) toks err,
+    scan_program U src = Done toks err ->
+    (forall t, In t toks -> tok_in (nlen src) t) /\ toks_sorted 0 toks /\
+    (forall l, err = Some l -> l_base l <= nlen src).
+
+Theorem C04_program_no_fault : program_no_fault_statement.
+Proof. exact program_no_fault. Qed.
+Print Assumptions C04_program_no_fault.
+
+Theorem C04_program_terminates : program_terminates_statement.
+Proof. exact program_terminates. Qed.
+Print Assumptions C04_program_terminates.
+
+Theorem C04_program_token_range : program_token_range_statement.
+Proof.
+  exact (fun U src toks err H =>
+    conj (program_token_offsets U src toks err H)
+      (conj (program_tokens_in_order U src toks err H)
+        (fun l E => program_error_offset U src toks l (eq_trans H (f_equal (Done toks) E))))).
+Qed.
+Print Assumptions C04_program_token_range.
+
+(* the loop of lexCode for programs: every iteration that goes on consumes at
+   least one byte (the invariant INVP has no tiling: a program has no text) *)
+Theorem C04_program_lexcode_measure :
+  forall (U : unitab) (src : bytes) (endt first : N) (s : cst),
+    INVP src (c_l s) ->
+    safe (code_body U endt first s)
+         (fun r => match r with
+                   | Again s' => (INVP src (c_l s') /\ l_base (c_l s) < l_base (c_l s') /\ l_tidx (c_l s') <= l_tidx (c_l s))
+                                 /\ c_ret s' = c_ret s
+                   | Stop s' => (INVP src (c_l s') /\ l_base (c_l s) <= l_base (c_l s') /\ l_tidx (c_l s') <= l_tidx (c_l s))
+                                /\ (c_ret s' = true -> c_ret s = true \/ closing endt (c_l s'))
+                   end)
+         (fun l' => INVP src l' /\ l_base (c_l s) <= l_base l' /\ l_tidx l' <= l_tidx (c_l s)).
+Proof. exact code_body_safeP. Qed.
+Print Assumptions C04_program_lexcode_measure.
 
 (* endRawIndex never reads outside its argument and ends *)
 Theorem C04_end_raw_index_partial :
@@ -96,4 +142,18 @@ Example C04_example_done :
   exists toks, scan_template go_unicode false 1
     [60;97;32;104;114;101;102;61;34;123;123;32;120;32;125;125;34;62;123;37;32;105;102;32;97;32;37;125;98;123;37;32;101;110;100;32;37;125] = Done toks None
     /\ length toks = 16%nat.
+Proof. vm_compute. eexists. split; reflexivity. Qed.
+
+(* programs: a source with an unterminated general comment, one ending with a
+   slash, and one that is lexed to the end: package main / func main() { } *)
+Example C04_example_program_comment :
+  exists toks l, scan_program go_unicode [47; 42; 120] = Done toks (Some l).
+Proof. vm_compute. eauto. Qed.
+Example C04_example_program_slash :
+  exists toks, scan_program go_unicode [120; 32; 47] = Done toks None /\ length toks = 3%nat.
+Proof. vm_compute. eexists. split; reflexivity. Qed.
+Example C04_example_program_done :
+  exists toks, scan_program go_unicode
+    [112;97;99;107;97;103;101;32;109;97;105;110;10;102;117;110;99;32;109;97;105;110;40;41;32;123;32;125;10] = Done toks None
+    /\ length toks = 11%nat.
 Proof. vm_compute. eexists. split; reflexivity. Qed.
